@@ -3,10 +3,10 @@ LEVEL = 'other'
 EXPLANATION = ('CBMC refuses to explore interleavings of pointer-using threads ("pointer handling for concurrency is unsound") and no other engine is installed, so the schedule quantifier is NOT explored. '
                'Decided by the solver instead, for every input inside the bound, is the sufficient condition the README guarantee rests on -- absence of hidden shared mutable state: (i) objects shared between threads and passed only '
                'through const interfaces are never written (every store of the translated code is checked against registered read-only regions; a store of an unchanged value counts); (ii) every non-constant module-level object '
-               'reachable from the translated code (enumerated from the regenerated IR; none on the unchanged tree) is bit-identical after a second call; (iii) a repeated call returns the same result. '
+               'reachable from the translated code (enumerated from the regenerated IR; none on the unchanged tree) is written only inside ABI-guarded one-time initialisation (snapshot before the first call, re-taken at every __cxa_guard_release; bit-identical after the first and after a second, independent call) -- for the dedicated harness AND for the harness bodies of the other properties run twice (twice_*, rt/model_twice.c); (iii) a repeated call returns the same result. '
                'IR containing atomics or fences makes the check exit 2 rather than guess. The step from (i)-(iii) to "no data race for any schedule" is a standard non-interference argument, stated, not mechanised.')
 LEVEL_TEXT = EXPLANATION
-BOUNDS = {'quick': 'shared strings of 4..5 bytes (heap-backed) and <= 3 bytes (in-object), 10 const operations; thread-local work: double formatting with renderings up to 80 characters, from_int, base64/hex round trip, UTF-8 -> UTF-16', 'thorough': 'same'}
+BOUNDS = {'quick': 'shared strings of 4..5 bytes (heap-backed) and <= 3 bytes (in-object), 10 const operations; thread-local work: double formatting with renderings up to 80 characters, from_int, base64/hex round trip, UTF-8 -> UTF-16; twice_*: 56 harness bodies of C03..C17 at their quick bounds, run twice', 'thorough': 'twice_*: 160 harness bodies of C03..C17 at their quick bounds, run twice'}
 OUTSIDE = 'thread interleavings themselves; operations not listed (they share the kernels that are covered); libstdc++/libc internals (locale, iostream, snprintf)'
 LEVEL_NOTE = 'level "other": bounded symbolic frame-condition check plus an unmechanised non-interference argument; trusted base as for the other checks.'
 G1 = {1: 'compare', 2: 'find', 3: 'hash', 4: 'eq_cstr_via_c_str', 5: 'substr', 6: 'to_upper', 7: 'concat', 8: 'copy', 9: 'starts_ends_with', 10: 'left'}
@@ -19,4 +19,42 @@ def queries():
     qs.append(Q('local_from_int', 'C20_shared.c', 'numeric.cpp', config='small', defs={'GROUP': 2, 'OP': 2}, unwind=22, heap_cap=32, bound={'operation': 'from_int twice'}))
     qs.append(Q('local_codecs', 'C20_shared.c', 'codecs.cpp', config='small', defs={'GROUP': 2, 'OP': 3}, unwind=10, heap_cap=16, solver='kissat', bound={'operation': 'base64 and hex round trips'}))
     qs.append(Q('local_utf8_utf16', 'C20_shared.c', 'utf.cpp', config='small', defs={'GROUP': 2, 'OP': 4}, unwind=6, hunwind=18, heap_cap=16, bound={'operation': 'utf8_to_utf16 twice'}))
+    # (ii) for the operations of the OTHER properties: their harness bodies run twice on independent inputs (rt/model_twice.c); module-level mutable state of the
+    # translated code must be identical after the second run.  One small query per operation family, taken from the property that owns the harness.
+    import importlib.util, os, re, copy
+    def other(pid):
+        sp = importlib.util.spec_from_file_location('c20_' + pid, os.path.join(os.path.dirname(__file__), pid + '.py')); m = importlib.util.module_from_spec(sp); m.Q = Q; sp.loader.exec_module(m); return {q.name: q for q in m.queries()}
+    PICK = {'C05': ['copy_assign_c8_quick', 'move_assign_c16_quick', 'allocate_fill_c32_quick'],
+            'C06': [r'.*'],
+            'C07': ['find_pn_sso_quick', 'find_last_str_sso_quick', 'starts_with_cstr_sso_quick'],
+            'C08': [r'.*'],
+            'C09': ['split_str_s3_m1_quick', 'tokenize_s3_m1_quick', 'split_cstr_s2_m1_quick', 'replace_s3_f1_t1_quick'],
+            'C10': ['apply1_cstr_len2_quick', 'apply1_char_len2_quick'],
+            'C11': ['format_string_quick', 'numeric_layout_quick', 'format_type_string_quick', 'char_class_char32', 'int_int_hex', 'int_ushort_oct', 'select_1'],
+            'C12': ['from_short_r10', 'from_ullong_r16', 'parse_to_int_quick', 'parse_to_ulong_long_quick', 'agree_short_dec_small'],
+            'C14': [r'.*'], 'C15': [r'.*'],
+            'C16': ['append_cap8_quick', 'append_char_cap8_quick', 'ins_int_cap8_quick', 'ins_u16_cap8_quick', 'ins_string_cap8_quick', 'to_string_default', 'move_assign_cap8_into8_quick'],
+            'C17': ['append_stdio_n3_quick', 'append_ostream_wchar_n3_quick', 'insert_ostream_char16_n3_quick', 'extract_ostream_char_n3_quick', 'append_string_latin1_n3_quick'],
+            'C03': [r'conv_.*_m1_quick'],
+            'C04': [r'.*']}
+    # measured (one core per query, this sandbox): the ones below take 1-20 s each and run in the quick tier; the others (up to 570 s) in the thorough tier only;
+    # SKIP: out of memory at 12 GB when doubled (their families are represented by cheaper members)
+    QUICK = set('''C03_conv_u16_u32_m1_quick C03_conv_u32_l1_m1_quick C03_conv_u32_u16_m1_quick C03_conv_u32_wc_m1_quick C03_conv_wc_u16_m1_quick C04_clear_quick C04_concat_quick
+        C04_copy_then_kill_source_quick C04_move_assign_quick C04_substr_whole_quick C05_allocate_fill_c32_quick C05_copy_assign_c8_quick C05_move_assign_c16_quick C06_bufcmp_obj_c32_quick
+        C06_bufcmp_obj_c8_quick C06_bufcmp_obj_wc_quick C06_bufcmp_static_c16_quick C06_bufcmp_static_c32_quick C07_find_pn_sso_quick C07_starts_with_cstr_sso_quick C08_after_last_ch_sso_quick
+        C08_before_first_ch_heap_quick C08_left_sso_quick C08_substr1_heap_quick C08_trim_left_heap_quick C08_trim_left_sso_quick C09_tokenize_s3_m1_quick C11_char_class_char32 C11_format_string_quick
+        C11_format_type_string_quick C11_select_1 C12_parse_to_int_quick C12_parse_to_ulong_long_quick C12_from_short_r10 C12_from_ullong_r16 C14_b64_seq_n0_quick C14_b64_seq_n1_quick C14_b64_seq_n2_quick
+        C14_hex_seq_n1_quick C14_hex_seq_n3_quick C15_b64_throwing_len0_quick C15_b64_to_buffer_len3_quick C15_hex_throwing_len6_quick C15_hex_to_buffer_len0_quick C15_hex_to_buffer_len2_quick
+        C15_hex_to_buffer_len5_quick C16_move_assign_cap8_into8_quick C16_append_cap8_quick C16_append_char_cap8_quick C16_ins_int_cap8_quick C16_to_string_default C17_append_stdio_n3_quick
+        C17_append_string_latin1_n3_quick C17_extract_ostream_char_n3_quick C17_append_ostream_wchar_n3_quick C17_insert_ostream_char16_n3_quick'''.split())
+    SKIP = {'C16_ins_u16_cap8_quick', 'C03_conv_u16_u8_m1_quick', 'C03_conv_wc_u8_m1_quick', 'C03_conv_u32_u8_m1_quick'}
+    seen = set()
+    for pid, pats in PICK.items():
+        qo = other(pid)
+        for name, q in qo.items():
+            if 'quick' not in q.tiers or not any(re.fullmatch(p, name) for p in pats): continue
+            if '%s_%s' % (pid, name) in SKIP: continue
+            t = copy.copy(q); t.name = 'twice_%s_%s' % (pid, name); t.twice = True; t.tiers = ('quick', 'thorough') if '%s_%s' % (pid, name) in QUICK else ('thorough',); t.bound = dict(q.bound, harness='%s (%s), run twice' % (pid, name))
+            t.timeout = max(q.timeout or 0, 900); t.mem_gb = max(q.mem_gb, 10)
+            if t.name not in seen: seen.add(t.name); qs.append(t)
     return qs
